@@ -56,6 +56,8 @@ func init() {
 }
 
 func runC10(p *chk.Prog, r *chk.Report) {
+	// a failed session update is reported, so that it is retried (PUBLISH, shared with C05)
+	c05Publish(p, r)
 	nodeExclusionRule(p, r)
 	nodeNetworkRule(p, r)
 	c10Guards(p, r)
